@@ -1,11 +1,465 @@
 (* Lemmas about Model/Readdir.v.  Property statements are in Properties/C17.v. *)
-From Coq Require Import List NArith ZArith Bool Lia.
+From Coq Require Import List NArith ZArith Bool Lia ZifyBool ZifyNat ZifyN.
 From P9 Require Import Base.Res Model.Readdir.
 Import ListNotations.
 Open Scope N_scope.
+
+(* ---- vocabulary of the statements ---- *)
+
+(* [lists_script script ds]: an error-free run of the underlying iterator that lists
+   exactly ds: non-empty batches, ended by an empty batch (whatever the iterator would
+   say after that) or by the exhaustion of the script (which answers the empty batch). *)
+Inductive lists_script {E} : list (batch E) -> list E -> Prop :=
+| LS_end : lists_script [] []
+| LS_empty rest : lists_script (BOk [] :: rest) []
+| LS_batch b s ds : b <> [] -> lists_script s ds -> lists_script (BOk b :: s) (b ++ ds).
+
+(* the bytes a reply carries *)
+Definition reply_bytes {E} (enc : E -> list N) (r : rdres E) : list N :=
+  match r with RdData t _ => enc_all enc t | _ => [] end.
+Definition ok_reply {E} (g : list E) : rdres E := RdData g None.
+
+(* every entry's encoding fits in count bytes *)
+Definition fits {E} (enc : E -> list N) (ds : list E) (count : N) : Prop :=
+  Forall (fun d => blen (enc d) <= count) ds.
 
 Lemma read_bad_offset {E} (enc : E -> list N) (st : rdst E) count off :
   r_off st <> off -> read enc st count off = (RdBadOff, st).
 Proof.
   intros H. unfold read. destruct (Z.eqb_spec (r_off st) off); [contradiction|reflexivity].
 Qed.
+
+Lemma blen_app (a b : list N) : blen (a ++ b) = blen a + blen b.
+Proof. unfold blen. rewrite app_length. lia. Qed.
+Lemma blen_nil_iff (a : list N) : blen a = 0 <-> a = [].
+Proof. unfold blen. destruct a; simpl; split; intros H; try reflexivity; try discriminate; lia. Qed.
+
+Section RD.
+Context {E : Type} (enc : E -> list N).
+
+Lemma enc_all_app (a b : list E) : enc_all enc (a ++ b) = enc_all enc a ++ enc_all enc b.
+Proof. unfold enc_all. rewrite map_app, concat_app. reflexivity. Qed.
+Lemma enc_all_cons d (a : list E) : enc_all enc (d :: a) = enc d ++ enc_all enc a.
+Proof. reflexivity. Qed.
+Lemma enc_all_concat (gs : list (list E)) : enc_all enc (concat gs) = concat (map (enc_all enc) gs).
+Proof. induction gs as [|g gs IH]; simpl; auto. rewrite enc_all_app, IH. reflexivity. Qed.
+
+(* ---- what the iterator state will still deliver ---- *)
+Fixpoint sflat (s : list (batch E)) : list E :=
+  match s with BOk (d :: r) :: s' => (d :: r) ++ sflat s' | _ => [] end.
+Fixpoint sclean (s : list (batch E)) : bool :=
+  match s with BOk (_ :: _) :: s' => sclean s' | BErr _ :: _ => false | _ => true end.
+
+Lemma lists_script_flat script ds : lists_script script ds -> sclean script = true /\ sflat script = ds.
+Proof.
+  induction 1 as [|rest|b s ds Hb _ [IH1 IH2]]; simpl; auto.
+  destruct b as [|d r]; [contradiction|]. simpl. rewrite IH2. auto.
+Qed.
+
+Definition nx_pend (nx : nx1 E) : list E := if n_done nx then [] else n_dirs nx ++ sflat (n_script nx).
+Definition nx_clean (nx : nx1 E) : bool := n_done nx || sclean (n_script nx).
+Definition nx_weight (nx : nx1 E) : nat := length (n_dirs nx) + script_weight (n_script nx).
+Definition buf_list (buf : option E) : list E := match buf with Some d => [d] | None => [] end.
+Definition pend (nx : nx1 E) (buf : option E) : list E := buf_list buf ++ nx_pend nx.
+
+Lemma next1_spec nx : nx_clean nx = true ->
+  match nx_pend nx with
+  | [] => exists nx', next1 nx = (Eof, nx') /\ nx_pend nx' = [] /\ nx_clean nx' = true
+  | d :: r => exists nx', next1 nx = (Got d, nx') /\ nx_pend nx' = r /\ nx_clean nx' = true
+                          /\ (nx_weight nx' < nx_weight nx)%nat
+  end.
+Proof.
+  destruct nx as [dirs done script]. unfold nx_clean, nx_pend, next1, nx_weight. cbn [n_done n_dirs n_script].
+  intros Hc. destruct done.
+  - eexists; repeat split; reflexivity.
+  - destruct dirs as [|d r].
+    + destruct script as [|[[|d r]|e] sc]; cbn [app sflat].
+      * eexists; repeat split; reflexivity.
+      * eexists; repeat split; reflexivity.
+      * eexists; repeat split; cbn [n_done n_dirs n_script]; auto;
+        cbn [script_weight batch_weight length]; try lia.
+      * simpl in Hc. discriminate.
+    + cbn [app]. eexists; repeat split; cbn [n_done n_dirs n_script]; auto; cbn [length]; try lia.
+Qed.
+
+(* ---- the abstract reader: take whole entries while they fit ---- *)
+Fixpoint take_fit (cap plen : N) (ds : list E) : list E * list E :=
+  match ds with
+  | [] => ([], [])
+  | d :: r =>
+      if plen <? cap then
+        if cap <? plen + blen (enc d) then ([], ds)
+        else let '(t, rest) := take_fit cap (plen + blen (enc d)) r in (d :: t, rest)
+      else ([], ds)
+  end.
+
+Lemma take_fit_app cap ds : forall plen, fst (take_fit cap plen ds) ++ snd (take_fit cap plen ds) = ds.
+Proof.
+  induction ds as [|d r IH]; intros plen; cbn [take_fit]; auto.
+  destruct (plen <? cap); [|reflexivity].
+  destruct (cap <? plen + blen (enc d)); [reflexivity|].
+  specialize (IH (plen + blen (enc d))). destruct (take_fit cap (plen + blen (enc d)) r) as [t rest].
+  simpl in *. rewrite IH. reflexivity.
+Qed.
+
+Lemma take_fit_len cap ds : forall plen, plen <= cap ->
+  plen + blen (enc_all enc (fst (take_fit cap plen ds))) <= cap.
+Proof.
+  induction ds as [|d r IH]; intros plen Hp; cbn [take_fit].
+  - simpl. unfold blen; simpl. lia.
+  - destruct (plen <? cap) eqn:E1; [|unfold blen; simpl; lia].
+    destruct (cap <? plen + blen (enc d)) eqn:E2; [unfold blen; simpl; lia|].
+    assert (Hle : plen + blen (enc d) <= cap) by lia.
+    specialize (IH _ Hle). destruct (take_fit cap (plen + blen (enc d)) r) as [t rest].
+    cbn [fst] in *. rewrite enc_all_cons, blen_app. lia.
+Qed.
+
+Lemma take_fit_nil cap plen : take_fit cap plen [] = ([], []).
+Proof. reflexivity. Qed.
+
+(* the premise of the property gives progress: a non-empty pending list yields a non-empty reply *)
+Lemma take_fit_progress cap d r : blen (enc d) <= cap -> enc d <> [] ->
+  exists t rest, take_fit cap 0 (d :: r) = (d :: t, rest).
+Proof.
+  intros Hfit Hne. cbn [take_fit].
+  assert (0 < blen (enc d)).
+  { destruct (N.eq_dec (blen (enc d)) 0) as [Hz|Hz]; [apply blen_nil_iff in Hz; contradiction|lia]. }
+  destruct (0 <? cap) eqn:E1; [|lia].
+  destruct (cap <? 0 + blen (enc d)) eqn:E2; [lia|].
+  destruct (take_fit cap (0 + blen (enc d)) r) as [t rest]. eauto.
+Qed.
+
+(* ---- the loop of Read refines take_fit ---- *)
+Lemma read_loop_spec cap : forall fuel plen nx buf,
+  nx_clean nx = true ->
+  (length (buf_list buf) + nx_weight nx < fuel)%nat ->
+  exists nx' buf',
+    read_loop enc fuel cap plen nx buf = Some (fst (take_fit cap plen (pend nx buf)), None, nx', buf')
+    /\ pend nx' buf' = snd (take_fit cap plen (pend nx buf))
+    /\ nx_clean nx' = true.
+Proof.
+  induction fuel as [|f IH]; intros plen nx buf Hc Hw; [lia|].
+  cbn [read_loop].
+  destruct (plen <? cap) eqn:E1.
+  2:{ exists nx, buf. unfold pend at 1 3. destruct (buf_list buf ++ nx_pend nx) as [|d r] eqn:Ep.
+      - cbn [take_fit fst snd]. unfold pend. rewrite Ep. auto.
+      - cbn [take_fit]. rewrite E1. cbn [fst snd]. unfold pend. rewrite Ep. auto. }
+  (* one iteration: where does the entry come from *)
+  assert (Hstep : forall d nx1 rest,
+            pend nx buf = d :: rest -> nx_pend nx1 = rest -> nx_clean nx1 = true ->
+            (nx_weight nx1 < f)%nat ->
+            exists nx' buf',
+              (if cap <? plen + blen (enc d) then Some ([], None, nx1, Some d)
+               else match read_loop enc f cap (plen + blen (enc d)) nx1 None with
+                    | Some (t, err, nx'', buf'') => Some (d :: t, err, nx'', buf'')
+                    | None => None
+                    end) = Some (fst (take_fit cap plen (pend nx buf)), None, nx', buf')
+              /\ pend nx' buf' = snd (take_fit cap plen (pend nx buf)) /\ nx_clean nx' = true).
+  { intros d nx1 rest Hp Hr Hc1 Hw1. rewrite Hp. cbn [take_fit]. rewrite E1.
+    destruct (cap <? plen + blen (enc d)) eqn:E2.
+    - exists nx1, (Some d). cbn [fst snd]. unfold pend. simpl. rewrite Hr. auto.
+    - destruct (IH (plen + blen (enc d)) nx1 None Hc1) as (nx' & buf' & Hl & Hpd & Hcl).
+      { simpl. lia. }
+      assert (Hpn : pend nx1 None = rest) by (unfold pend; simpl; auto).
+      rewrite Hpn in Hl, Hpd. rewrite Hl.
+      destruct (take_fit cap (plen + blen (enc d)) rest) as [t rest'].
+      exists nx', buf'. cbn [fst snd] in *. auto. }
+  destruct buf as [d|].
+  - apply (Hstep d nx (nx_pend nx)); auto. simpl in Hw. lia.
+  - pose proof (next1_spec nx Hc) as Hn.
+    assert (Hpn : pend nx None = nx_pend nx) by reflexivity. rewrite Hpn in *.
+    destruct (nx_pend nx) as [|d r] eqn:Ep.
+    + destruct Hn as (nx' & Hn & Hp' & Hc'). rewrite Hn.
+      exists nx', None. cbn [take_fit fst snd]. unfold pend. simpl. auto.
+    + destruct Hn as (nx' & Hn & Hp' & Hc' & Hw'). rewrite Hn.
+      apply (Hstep d nx' r); auto. simpl in Hw. lia.
+Qed.
+
+Definition st_pend (st : rdst E) : list E := pend (r_nx st) (r_buf st).
+Definition st_clean (st : rdst E) : bool := nx_clean (r_nx st).
+
+Lemma read_spec st count :
+  st_clean st = true ->
+  exists st',
+    read enc st count (r_off st) = (ok_reply (fst (take_fit count 0 (st_pend st))), st')
+    /\ st_pend st' = snd (take_fit count 0 (st_pend st))
+    /\ st_clean st' = true
+    /\ r_off st' = (r_off st + Z.of_N (blen (enc_all enc (fst (take_fit count 0 (st_pend st))))))%Z.
+Proof.
+  intros Hc. unfold read. rewrite Z.eqb_refl.
+  destruct (read_loop_spec count (read_fuel (r_nx st) (r_buf st)) 0 (r_nx st) (r_buf st) Hc)
+    as (nx' & buf' & Hl & Hp & Hc').
+  { unfold read_fuel, nx_weight. destruct (r_buf st); simpl; lia. }
+  rewrite Hl. eexists. split; [reflexivity|]. unfold st_pend, st_clean. cbn [r_nx r_buf r_off]. auto.
+Qed.
+
+(* ---- a sequence of reads at the reader's own running offset ---- *)
+Fixpoint chunks (counts : list N) (ds : list E) : list (list E) :=
+  match counts with
+  | [] => []
+  | c :: cs => fst (take_fit c 0 ds) :: chunks cs (snd (take_fit c 0 ds))
+  end.
+
+Lemma run_reads_spec : forall counts st off,
+  st_clean st = true -> r_off st = off ->
+  fst (run_reads enc st off counts) = map ok_reply (chunks counts (st_pend st)).
+Proof.
+  induction counts as [|c cs IH]; intros st off Hc Ho; [reflexivity|].
+  cbn [run_reads chunks map]. subst off.
+  destruct (read_spec st c Hc) as (st' & Hr & Hp & Hc' & Ho'). rewrite Hr.
+  unfold ok_reply at 1.
+  specialize (IH st' (r_off st + Z.of_N (blen (enc_all enc (fst (take_fit c 0 (st_pend st))))))%Z Hc' Ho').
+  destruct (run_reads enc st' _ cs) as [rs st'']. cbn [fst] in *. rewrite IH, Hp. reflexivity.
+Qed.
+
+Lemma new_readdir_pend script ds : lists_script script ds ->
+  st_clean (new_readdir script) = true /\ st_pend (new_readdir script) = ds.
+Proof.
+  intros H. destruct (lists_script_flat _ _ H) as [H1 H2].
+  unfold st_clean, st_pend, new_readdir, nx_clean, pend, nx_pend. simpl. rewrite H1, H2. auto.
+Qed.
+
+(* ---- properties of chunks ---- *)
+Lemma chunks_prefix : forall counts ds, exists rest, concat (chunks counts ds) ++ rest = ds.
+Proof.
+  induction counts as [|c cs IH]; intros ds; cbn [chunks concat].
+  - exists ds. reflexivity.
+  - destruct (IH (snd (take_fit c 0 ds))) as [rest Hr]. exists rest.
+    rewrite <- app_assoc, Hr. apply take_fit_app.
+Qed.
+
+Lemma chunks_sizes : forall counts ds,
+  Forall2 (fun g c => blen (enc_all enc g) <= c) (chunks counts ds) counts.
+Proof.
+  induction counts as [|c cs IH]; intros ds; cbn [chunks]; constructor; auto.
+  pose proof (take_fit_len c ds 0). lia.
+Qed.
+
+Lemma chunks_length counts ds : length (chunks counts ds) = length counts.
+Proof. revert ds; induction counts as [|c cs IH]; intros ds; simpl; auto. Qed.
+
+Lemma prefix_firstn {A} (a rest ds : list A) : a ++ rest = ds -> a = firstn (length a) ds.
+Proof. intros <-. rewrite firstn_app, Nat.sub_diag, firstn_all. simpl. rewrite app_nil_r. reflexivity. Qed.
+
+Lemma Forall_suffix {A} (P : A -> Prop) (a b : list A) : Forall P (a ++ b) -> Forall P b.
+Proof. intros H. apply Forall_app in H. tauto. Qed.
+
+Lemma take_fit_empty_all c ds :
+  fits enc ds c -> Forall (fun d => enc d <> []) ds ->
+  fst (take_fit c 0 ds) = [] -> ds = [].
+Proof.
+  intros Hf Hn Ht. destruct ds as [|d r]; auto.
+  inversion Hf; subst. inversion Hn; subst.
+  destruct (take_fit_progress c d r) as (t & rest & Heq); auto. rewrite Heq in Ht. discriminate.
+Qed.
+
+Lemma chunks_progress : forall counts ds i,
+  Forall (fits enc ds) counts -> Forall (fun d => enc d <> []) ds ->
+  nth_error (chunks counts ds) i = Some [] ->
+  concat (firstn i (chunks counts ds)) = ds.
+Proof.
+  induction counts as [|c cs IH]; intros ds i Hf Hn Hi.
+  - destruct i; discriminate.
+  - cbn [chunks] in *. inversion Hf as [|? ? Hfc Hfcs]; subst.
+    pose proof (take_fit_app c ds 0) as Happ.
+    destruct i as [|i]; cbn [nth_error firstn concat] in *.
+    + inversion Hi as [Hi']. pose proof (take_fit_empty_all c ds Hfc Hn Hi') as Hnil.
+      rewrite Hnil. reflexivity.
+    + rewrite IH; auto.
+      * eapply Forall_impl; [|exact Hfcs]. intros a Ha. unfold fits in *. rewrite <- Happ in Ha.
+        eapply Forall_suffix; eauto.
+      * rewrite <- Happ in Hn. eapply Forall_suffix; eauto.
+Qed.
+
+Lemma chunks_of_nil counts : Forall (fun g => g = []) (chunks counts []).
+Proof. induction counts; simpl; constructor; auto. Qed.
+
+Lemma chunks_bound : forall counts ds,
+  Forall (fits enc ds) counts -> Forall (fun d => enc d <> []) ds ->
+  (length ds < length counts)%nat ->
+  exists i, (i <= length ds)%nat /\ nth_error (chunks counts ds) i = Some [].
+Proof.
+  induction counts as [|c cs IH]; intros ds Hf Hn Hl; [simpl in Hl; lia|].
+  cbn [chunks]. inversion Hf as [|? ? Hfc Hfcs]; subst.
+  destruct ds as [|d r].
+  - exists 0%nat. split; auto.
+  - inversion Hfc; subst. inversion Hn; subst.
+    destruct (take_fit_progress c d r) as (t & rest & Heq); auto.
+    pose proof (take_fit_app c (d :: r) 0) as Happ. rewrite Heq in *. cbn [fst snd] in *.
+    destruct (IH rest) as (i & Hi & Hnth).
+    + eapply Forall_impl; [|exact Hfcs]. intros a Ha. unfold fits in *. rewrite <- Happ in Ha.
+      eapply (Forall_suffix _ (d :: t)); eauto.
+    + rewrite <- Happ in Hn. eapply (Forall_suffix _ (d :: t)); eauto.
+    + apply (f_equal (@length E)) in Happ. rewrite app_length in Happ. simpl in *. lia.
+    + exists (S i). split; [|exact Hnth].
+      apply (f_equal (@length E)) in Happ. rewrite app_length in Happ. simpl in *. lia.
+Qed.
+
+Lemma chunks_complete counts ds :
+  Forall (fits enc ds) counts -> Forall (fun d => enc d <> []) ds ->
+  (In [] (chunks counts ds) \/ (length ds < length counts)%nat) ->
+  concat (chunks counts ds) = ds.
+Proof.
+  intros Hf Hn H.
+  assert (Hi : exists i, nth_error (chunks counts ds) i = Some []).
+  { destruct H as [H|H].
+    - apply In_nth_error in H. exact H.
+    - destruct (chunks_bound counts ds Hf Hn H) as (i & _ & Hi). eauto. }
+  destruct Hi as [i Hi]. pose proof (chunks_progress counts ds i Hf Hn Hi) as Hp.
+  destruct (chunks_prefix counts ds) as [rest Hr].
+  rewrite <- (firstn_skipn i (chunks counts ds)) in Hr |- *. rewrite concat_app in *. rewrite Hp in *.
+  rewrite <- app_assoc in Hr.
+  assert (Hr' : ds ++ (concat (skipn i (chunks counts ds)) ++ rest) = ds ++ []) by (rewrite app_nil_r; exact Hr).
+  apply app_inv_head in Hr'.
+  apply app_eq_nil in Hr'. destruct Hr' as [Hr' _]. rewrite Hr'. apply app_nil_r.
+Qed.
+
+(* ---- the statements of C17, server side ---- *)
+Definition replies (script : list (batch E)) (counts : list N) : list (rdres E) :=
+  fst (run_reads enc (new_readdir script) 0%Z counts).
+
+Lemma replies_chunks script ds counts : lists_script script ds ->
+  replies script counts = map ok_reply (chunks counts ds).
+Proof.
+  intros H. destruct (new_readdir_pend _ _ H) as [Hc Hp]. unfold replies.
+  rewrite (run_reads_spec counts (new_readdir script) 0%Z Hc eq_refl), Hp. reflexivity.
+Qed.
+
+Lemma reply_bytes_ok (gs : list (list E)) : map (reply_bytes enc) (map ok_reply gs) = map (enc_all enc) gs.
+Proof. rewrite map_map. reflexivity. Qed.
+
+Lemma In_ok_reply_nil (gs : list (list E)) : In (ok_reply []) (map ok_reply gs) -> In ([] : list E) gs.
+Proof.
+  intros H. apply in_map_iff in H. destruct H as (g & Hg & Hin). unfold ok_reply in Hg.
+  inversion Hg; subst. exact Hin.
+Qed.
+
+Lemma stream script ds counts :
+  lists_script script ds -> Forall (fun d => enc d <> []) ds -> Forall (fits enc ds) counts ->
+  (* no read fails *)
+  (forall r, In r (replies script counts) -> exists g, r = ok_reply g)
+  (* what has been returned is always a prefix of the listing's encoding ... *)
+  /\ (exists k, concat (map (reply_bytes enc) (replies script counts)) = enc_all enc (firstn k ds))
+  (* ... and all of it once a reply was empty, which happens within |ds|+1 reads *)
+  /\ ((In (ok_reply []) (replies script counts) \/ (length ds < length counts)%nat) ->
+      concat (map (reply_bytes enc) (replies script counts)) = enc_all enc ds).
+Proof.
+  intros Hs Hn Hf. rewrite (replies_chunks _ _ counts Hs). repeat split.
+  - intros r Hr. apply in_map_iff in Hr. destruct Hr as (g & Hg & _). eauto.
+  - destruct (chunks_prefix counts ds) as [rest Hr]. exists (length (concat (chunks counts ds))).
+    rewrite reply_bytes_ok, <- enc_all_concat. f_equal. eapply prefix_firstn; eauto.
+  - intros H. rewrite reply_bytes_ok, <- enc_all_concat. f_equal. apply chunks_complete; auto.
+    destruct H as [H|H]; [left; apply In_ok_reply_nil; exact H|right; exact H].
+Qed.
+
+Lemma whole script ds counts :
+  lists_script script ds ->
+  exists groups,
+    replies script counts = map ok_reply groups
+    /\ (exists k, concat groups = firstn k ds)
+    /\ Forall2 (fun g c => blen (enc_all enc g) <= c) groups counts.
+Proof.
+  intros Hs. exists (chunks counts ds). rewrite (replies_chunks _ _ counts Hs). repeat split.
+  - destruct (chunks_prefix counts ds) as [rest Hr]. exists (length (concat (chunks counts ds))).
+    eapply prefix_firstn; eauto.
+  - apply chunks_sizes.
+Qed.
+
+Lemma nth_error_map_ok (gs : list (list E)) i g : nth_error (map ok_reply gs) i = Some (ok_reply g) -> nth_error gs i = Some g.
+Proof.
+  rewrite nth_error_map. destruct (nth_error gs i) as [g'|]; simpl; [|discriminate].
+  unfold ok_reply. intros H. inversion H. reflexivity.
+Qed.
+
+Lemma progress script ds counts :
+  lists_script script ds -> Forall (fun d => enc d <> []) ds -> Forall (fits enc ds) counts ->
+  (* an empty reply means everything was delivered by the replies before it *)
+  (forall i, nth_error (replies script counts) i = Some (ok_reply []) ->
+             concat (map (reply_bytes enc) (firstn i (replies script counts))) = enc_all enc ds)
+  (* and one comes within the first |ds|+1 reads *)
+  /\ ((length ds < length counts)%nat ->
+      exists i, (i <= length ds)%nat /\ nth_error (replies script counts) i = Some (ok_reply [])).
+Proof.
+  intros Hs Hn Hf. rewrite (replies_chunks _ _ counts Hs). split.
+  - intros i Hi. apply nth_error_map_ok in Hi.
+    rewrite firstn_map, reply_bytes_ok, <- enc_all_concat. f_equal. apply chunks_progress; auto.
+  - intros Hl. destruct (chunks_bound counts ds Hf Hn Hl) as (i & Hi & Hnth). exists i. split; auto.
+    rewrite nth_error_map, Hnth. reflexivity.
+Qed.
+
+(* ---- client side ---- *)
+Section Client.
+Variable wf : E -> Prop.
+Variable dec : list N -> dres E.
+Hypothesis dec_enc : forall d rest, wf d -> dec (enc d ++ rest) = DOk d rest.
+Hypothesis dec_nil : dec [] = DEof.
+Hypothesis enc_nonempty : forall d, wf d -> enc d <> [].
+
+Lemma decode_all_enc : forall g fuel, Forall wf g -> (length (enc_all enc g) < fuel)%nat ->
+  decode_all dec fuel (enc_all enc g) = (g, false).
+Proof.
+  induction g as [|d r IH]; intros fuel Hw Hl.
+  - destruct fuel; [lia|]. cbn [decode_all]. unfold enc_all; simpl. rewrite dec_nil. reflexivity.
+  - destruct fuel; [lia|]. inversion Hw; subst. cbn [decode_all]. rewrite enc_all_cons.
+    rewrite dec_enc by auto. rewrite IH; auto.
+    rewrite enc_all_cons, app_length in Hl. pose proof (enc_nonempty d H1).
+    destruct (enc d); [congruence|]. simpl in Hl. lia.
+Qed.
+
+Lemma wf_nonempty ds : Forall wf ds -> Forall (fun d => enc d <> []) ds.
+Proof. intros H. eapply Forall_impl; [|exact H]. auto. Qed.
+
+Lemma enc_all_nil_iff g : Forall wf g -> (enc_all enc g = [] <-> g = []).
+Proof.
+  intros Hw. split; [|intros ->; reflexivity]. destruct g as [|d r]; auto.
+  inversion Hw; subst. rewrite enc_all_cons. intros H. apply app_eq_nil in H. destruct H as [H _].
+  exfalso. eapply enc_nonempty; eauto.
+Qed.
+
+Lemma cl_all_spec iounit : forall fuel c st,
+  c_done c = false -> c_nread c = r_off st -> st_clean st = true ->
+  Forall wf (st_pend st) -> fits enc (st_pend st) iounit ->
+  (length (st_pend st) < fuel)%nat ->
+  cl_all enc dec iounit fuel c st = Ok (st_pend st).
+Proof.
+  induction fuel as [|f IH]; intros c st Hd Hn Hc Hw Hf Hl; [lia|].
+  cbn [cl_all]. unfold cl_next. rewrite Hd, Hn.
+  destruct (read_spec st iounit Hc) as (st' & Hr & Hp & Hc' & Ho). rewrite Hr. unfold ok_reply.
+  pose proof (take_fit_app iounit (st_pend st) 0) as Happ.
+  set (g := fst (take_fit iounit 0 (st_pend st))) in *.
+  assert (Hwg : Forall wf g) by (rewrite <- Happ in Hw; apply Forall_app in Hw; tauto).
+  destruct (enc_all enc g) as [|b bs] eqn:Eb.
+  - apply (enc_all_nil_iff g Hwg) in Eb.
+    assert (st_pend st = []) as ->; [|reflexivity].
+    apply (take_fit_empty_all iounit); auto. apply wf_nonempty; auto.
+  - rewrite <- Eb. rewrite decode_all_enc; auto.
+    destruct g as [|d r] eqn:Eg; [discriminate|]. rewrite <- Eg in *.
+    rewrite IH.
+    + rewrite Eg. rewrite <- Happ. rewrite Hp. rewrite <- Eg. reflexivity.
+    + rewrite Eg. reflexivity.
+    + cbn [c_nread]. rewrite Ho, <- Eb. reflexivity.
+    + exact Hc'.
+    + rewrite Hp. rewrite <- Happ in Hw. apply Forall_app in Hw. tauto.
+    + rewrite Hp. unfold fits in *. rewrite <- Happ in Hf. apply Forall_app in Hf. tauto.
+    + rewrite Hp. apply (f_equal (@length E)) in Happ. rewrite app_length in Happ.
+      rewrite Eg in Happ. simpl in Happ. lia.
+Qed.
+
+Lemma client script ds iounit fuel :
+  lists_script script ds -> Forall wf ds -> fits enc ds iounit -> (length ds < fuel)%nat ->
+  cl_all enc dec iounit fuel new_cdir (new_readdir script) = Ok ds.
+Proof.
+  intros Hs Hw Hf Hl. destruct (new_readdir_pend _ _ Hs) as [Hc Hp].
+  rewrite <- Hp. apply cl_all_spec; auto; rewrite ?Hp; auto.
+Qed.
+
+Lemma client_msize script ds msize fuel :
+  lists_script script ds -> Forall wf ds ->
+  Forall (fun d => blen (enc d) + 11 <= msize) ds -> (length ds < fuel)%nat ->
+  cl_all enc dec (msize - 11) fuel new_cdir (new_readdir script) = Ok ds.
+Proof.
+  intros Hs Hw Hf Hl. apply client; auto. unfold fits. eapply Forall_impl; [|exact Hf].
+  intros d Hd. cbv beta in Hd. lia.
+Qed.
+End Client.
+End RD.
